@@ -1,61 +1,719 @@
 //go:build verif
 
+// Harness for C04: reverting the head exactly undoes a block; forks converge.
+//
+// Node A stores a chain, reverts k blocks and follows another fork; node B is a fresh node that
+// stores only the chain A should now hold. The decoded content of the two databases and every
+// answer of the Reader API must be identical, RevertHead must not fail on a block the node
+// stored, and restarted copies of A and B must behave alike. Every operation is also replayed on
+// the Lean model (`c04drv`) and the bucket families of the real database are compared with it.
 package main
 
 import (
+	"encoding/json"
 	"fmt"
-	"time"
+	"os"
+	"runtime"
+	"runtime/pprof"
+	"sort"
+	"sync"
 
 	"github.com/NethermindEth/juno/core"
 	"github.com/NethermindEth/juno/core/felt"
 	"verif/harness/lib"
 )
 
-func emptyDiff() *core.StateDiff {
-	return &core.StateDiff{
-		StorageDiffs:      map[felt.Felt]map[felt.Felt]*felt.Felt{},
-		Nonces:            map[felt.Felt]*felt.Felt{},
-		DeployedContracts: map[felt.Felt]*felt.Felt{},
-		DeclaredV0Classes: []*felt.Felt{},
-		DeclaredV1Classes: map[felt.Felt]*felt.Felt{},
-		ReplacedClasses:   map[felt.Felt]*felt.Felt{},
-		MigratedClasses:   map[felt.SierraClassHash]felt.CasmClassHash{},
+type caseSpec struct {
+	Kind     string `json:"scenario"`
+	NewState bool   `json:"new_state"`
+	Seed     uint64 `json:"seed"`
+	Case     int    `json:"case"`
+	Name     string `json:"name,omitempty"`
+}
+
+func genOptions() lib.GenOptions {
+	o := lib.DefaultGenOptions()
+	o.NAddr = 4
+	o.NSlots = 4
+	o.MaxTxs = 3
+	return o
+}
+
+// buildFork generates a random fork scenario from (seed, case index, backend).
+func buildFork(cs caseSpec, thorough bool) *Scenario {
+	r := lib.NewRNG(cs.Seed).Fork(uint64(cs.Case)*2 + 1)
+	opt := genOptions()
+	g := NewGen(r, cs.NewState, opt)
+	g.BiasSys = r.Chance(1, 3)
+	g.ImplicitClasses = r.Chance(1, 3)
+	maxL := 9
+	if thorough {
+		maxL = 14
+	}
+	p := forkParams{L: 1 + r.Intn(maxL)}
+	rounds := 1 + r.Intn(2)
+	h := p.L
+	for i := 0; i < rounds; i++ {
+		var k int
+		switch c := r.Intn(5); {
+		case h == 0:
+			k = 0
+		case c == 0:
+			k = h // whole chain including the genesis block
+		case c == 1:
+			k = 1
+		default:
+			k = 1 + r.Intn(h)
+		}
+		m := r.Intn(5)
+		p.Rounds = append(p.Rounds, k)
+		p.M = append(p.M, m)
+		h = h - k + m
+	}
+	sc := g.GenFork(cs.NewState, p)
+	sc.Warm = r.Bool()
+	sc.Restart = r.Chance(1, 3)
+	return sc
+}
+
+// ---------------------------------------------------------------------------------------------
+// Directed scenarios: one per shape the property text names, and one per defect ever seen.
+// ---------------------------------------------------------------------------------------------
+
+type directed struct {
+	name string
+	mk   func(newState bool) *Scenario
+}
+
+func sc1(main []*lib.BlockSpec, revert int, fork ...*lib.BlockSpec) *Scenario {
+	return &Scenario{Main: main, Rounds: []Round{{Revert: revert, Fork: fork}}, Restart: true}
+}
+
+func withClass(s *lib.BlockSpec, hash uint64) *lib.BlockSpec {
+	if s.Classes == nil {
+		s.Classes = map[felt.Felt]core.ClassDefinition{}
+	}
+	s.Classes[*lib.F(hash)] = myCairo0(hash)
+	return s
+}
+
+func declareV0(s *lib.BlockSpec, hash uint64, withDef bool) *lib.BlockSpec {
+	s.Diff.DeclaredV0Classes = append(s.Diff.DeclaredV0Classes, lib.F(hash))
+	if withDef {
+		withClass(s, hash)
+	}
+	return s
+}
+
+func l1Tx(seq uint64) (core.Transaction, *core.TransactionReceipt) {
+	g := lib.NewChainGen(lib.NewRNG(seq), false, genOptions())
+	for {
+		tx := g.GenTx("0.14.0")
+		if _, ok := tx.(*core.L1HandlerTransaction); ok {
+			return tx, g.GenReceipt(tx)
+		}
 	}
 }
 
-func main() {
-	for _, nw := range []bool{false, true} {
-		t0 := time.Now()
-		r := lib.NewRNG(1)
-		opt := lib.DefaultGenOptions()
-		opt.MaxTxs = 1
-		g := lib.NewChainGen(r, nw, opt)
-		a, adb := lib.NewNode(g.Net, nw)
-		for i := 0; i < 8193; i++ {
-			sp := &lib.BlockSpec{Version: "0.14.0", Diff: emptyDiff(), NoTxs: i < 8185}
-			bd, err := g.Next(sp)
-			if err != nil {
-				panic(err)
-			}
-			if err := lib.StoreOn(a, bd); err != nil {
-				panic(err)
-			}
-		}
-		fmt.Println("built", time.Since(t0))
-		for i := 0; i < 2; i++ {
-			if err := a.RevertHead(); err != nil {
-				fmt.Println("revert", err)
-			}
-			g.Revert()
-		}
-		_, err := core.GetAggregatedBloomFilter(adb, 0, 8191)
-		fmt.Println("persisted [0,8191] after revert to 8190: err=", err)
-		// restart
-		a2 := lib.NodeOn(adb, g.Net, nw)
-		bd, _ := g.Next(&lib.BlockSpec{Version: "0.14.0", Diff: emptyDiff()})
-		fmt.Println("restarted node store 8191':", lib.StoreOn(a2, bd))
-		a3db := adb.Copy()
-		_ = a3db
-		fmt.Println("live node store 8191':", lib.StoreOn(a, bd))
+var directedScenarios = []directed{
+	{"zero-write-to-never-written-slot", func(ns bool) *Scenario { // the failure fixed by 05cf200
+		return sc1(specs("0.14.0", D().Deploy(0x104, 0xc000).Set(0x104, 1, 7), D().Set(0x104, 1, 8).Set(0x104, 2, 0), D()), 2, D().Set(0x104, 2, 9).Spec("0.14.0"))
+	}},
+	{"zero-write-only-block", func(ns bool) *Scenario {
+		return sc1(specs("0.13.2", D().Deploy(0x104, 0xc000), D().Set(0x104, 5, 0)), 1, D().Set(0x104, 5, 1).Spec("0.13.2"))
+	}},
+	{"system-contract-emptied-then-later-block-reverted", func(ns bool) *Scenario {
+		return sc1(specs("0.13.2", D().Set(1, 7, 5), D(), D().Set(1, 7, 0), D()), 1)
+	}},
+	{"system-contract-first-touched-with-zero", func(ns bool) *Scenario {
+		return sc1(specs("0.14.0", D().Set(2, 7, 0), D().Deploy(0x104, 0xc000)), 1, D().Set(2, 7, 3).Spec("0.14.0"))
+	}},
+	{"system-contract-emptying-block-reverted", func(ns bool) *Scenario {
+		return sc1(specs("0.14.0", D().Set(1, 7, 5), D(), D().Set(1, 7, 0)), 1, D().Set(1, 8, 1).Spec("0.14.0"))
+	}},
+	{"system-contract-created-and-reverted", func(ns bool) *Scenario {
+		return sc1(specs("0.14.0", D().Deploy(0x104, 0xc000), D().Set(1, 7, 5).Set(2, 1, 1)), 1, D().Set(1, 7, 6).Spec("0.14.0"))
+	}},
+	{"sibling-slots-insert-reverted", func(ns bool) *Scenario { // trie2 leaf below a binary node
+		return sc1(specs("0.14.0", D().Deploy(0x104, 0xc000).Set(0x104, 3, 1).Set(0x104, 7, 2), D().Set(0x104, 2, 5)), 1, D().Set(0x104, 7, 3).Spec("0.14.0"))
+	}},
+	{"sibling-addresses-deploy-reverted", func(ns bool) *Scenario {
+		return sc1(specs("0.14.0", D().Deploy(0x104, 0xc000), D().Deploy(0x105, 0xc001).Set(0x105, 1, 1)), 1, D().Deploy(0x105, 0xc002).Spec("0.14.0"))
+	}},
+	{"deploy-then-touch-same-block", func(ns bool) *Scenario {
+		return sc1(specs("0.14.0", D().Deploy(0x104, 0xc000), D().Deploy(0x106, 0xc001).Set(0x106, 1, 1).Set(0x106, 9, 2).Nonce(0x106, 3)), 1,
+			D().Deploy(0x106, 0xc002).Set(0x106, 9, 4).Spec("0.14.0"))
+	}},
+	{"replace-class-and-nonce", func(ns bool) *Scenario {
+		return sc1(specs("0.13.4", D().Deploy(0x104, 0xc000), D().Replace(0x104, 0xc001).Nonce(0x104, 1), D().Replace(0x104, 0xc002).Nonce(0x104, 2)), 2,
+			D().Replace(0x104, 0xc003).Spec("0.13.4"))
+	}},
+	{"same-value-rewrite", func(ns bool) *Scenario {
+		return sc1(specs("0.14.0", D().Deploy(0x104, 0xc000).Set(0x104, 1, 7), D().Set(0x104, 1, 7), D().Set(0x104, 1, 7).Nonce(0x104, 0)), 2, D().Set(0x104, 1, 0).Spec("0.14.0"))
+	}},
+	{"class-for-deployed-contract", func(ns bool) *Scenario { // sync supplies the class of a deployed contract
+		return sc1([]*lib.BlockSpec{D().Deploy(0x104, 0xc000).Spec("0.13.2"), withClass(D().Deploy(0x105, 0xc005).Spec("0.13.2"), 0xc005)}, 1,
+			withClass(D().Deploy(0x106, 0xc005).Spec("0.13.2"), 0xc005), D().Spec("0.13.2"))
+	}},
+	{"cairo0-declare-and-redeclare", func(ns bool) *Scenario {
+		return sc1([]*lib.BlockSpec{declareV0(D().Spec("0.13.2"), 0xd001, true), declareV0(D().Spec("0.13.2"), 0xd001, false),
+			declareV0(declareV0(D().Spec("0.13.2"), 0xd001, true), 0xd002, true)}, 2, declareV0(D().Spec("0.13.2"), 0xd002, true))
+	}},
+	{"revert-whole-chain-and-rebuild", func(ns bool) *Scenario {
+		return sc1(specs("0.14.1", D().Deploy(0x104, 0xc000).Set(0x104, 1, 1).Set(1, 1, 1), D().Set(0x104, 1, 2).Nonce(0x104, 1)), 2,
+			D().Deploy(0x105, 0xc000).Spec("0.14.1"), D().Set(0x105, 1, 1).Spec("0.14.1"))
+	}},
+	{"l1-handler-reverted-and-resent", func(ns bool) *Scenario {
+		tx, rc := l1Tx(7)
+		a := D().Deploy(0x104, 0xc000).Spec("0.14.0")
+		b := D().Spec("0.14.0")
+		b.NoTxs, b.Txs, b.Rcs = false, []core.Transaction{tx}, []*core.TransactionReceipt{rc}
+		c := D().Spec("0.14.0")
+		c.NoTxs, c.Txs, c.Rcs = false, []core.Transaction{tx}, []*core.TransactionReceipt{rc}
+		return sc1([]*lib.BlockSpec{a, b}, 1, D().Spec("0.14.0"), c)
+	}},
+}
+
+// enumScenario: exhaustive small space. A chain of 3 blocks, each doing one action on ONE slot of
+// one contract (ordinary contract deployed in block 0, or system contract 0x1), then revert k,
+// then one fork block writing 1.
+func enumScenario(idx int, nacts int) (*Scenario, bool) {
+	acts := []int{-1, 0, 1, 2}[:nacts] // -1: no write
+	n := idx
+	target := n % 2
+	n /= 2
+	k := 1 + n%3
+	n /= 3
+	var a [3]int
+	for i := 0; i < 3; i++ {
+		a[i] = acts[n%nacts]
+		n /= nacts
 	}
+	if n > 0 {
+		return nil, false
+	}
+	addr := uint64(0x104)
+	if target == 1 {
+		addr = 1
+	}
+	var main []*lib.BlockSpec
+	for i := 0; i < 3; i++ {
+		d := D()
+		if i == 0 && target == 0 {
+			d.Deploy(addr, 0xc000)
+		}
+		if a[i] >= 0 {
+			d.Set(addr, 3, uint64(a[i]))
+		}
+		main = append(main, d.Spec("0.14.0"))
+	}
+	sc := sc1(main, k, D().Set(addr, 3, 1).Spec("0.14.0"))
+	if target == 0 && k == 3 {
+		sc.Rounds[0].Fork = []*lib.BlockSpec{D().Deploy(addr, 0xc000).Set(addr, 3, 1).Spec("0.14.0")}
+	}
+	sc.Restart = false
+	return sc, true
+}
+
+func enumCount(nacts int) int { return 2 * 3 * nacts * nacts * nacts }
+
+// windowScenario crosses the 8192-block boundary of the event filter windows.
+func windowScenario(newState bool) *Scenario {
+	const W = 8192
+	r := lib.NewRNG(0x8192)
+	opt := genOptions()
+	g := NewGen(r, newState, opt)
+	st := lib.NewAbsState()
+	var main []*lib.BlockSpec
+	total := W + 3
+	for i := 0; i < total; i++ {
+		var spec *lib.BlockSpec
+		if i >= W-6 || i == 100 {
+			spec = g.Block(st, uint64(i), "0.14.0")
+			if len(spec.Txs) == 0 { // make sure the blocks around the boundary carry events
+				tx := g.G.GenTx("0.14.0")
+				rc := g.G.GenReceipt(tx)
+				from, key := g.G.Addr(2), lib.EventKey(0)
+				rc.Events = append(rc.Events, &core.Event{From: &from, Keys: []felt.Felt{key}, Data: []felt.Felt{*lib.F(uint64(i))}})
+				spec.Txs, spec.Rcs, spec.NoTxs = []core.Transaction{tx}, []*core.TransactionReceipt{rc}, false
+			}
+		} else {
+			spec = &lib.BlockSpec{Version: "0.14.0", Diff: emptyDiff(), NoTxs: true}
+		}
+		st.Apply(uint64(i), spec.Diff, spec.Classes)
+		main = append(main, spec)
+	}
+	// revert back into window 0 (blocks W+2 .. W-3), then a fork that crosses the boundary again
+	k := 6
+	base := lib.NewAbsState()
+	for i := 0; i < total-k; i++ {
+		base.Apply(uint64(i), main[i].Diff, main[i].Classes)
+	}
+	var fork []*lib.BlockSpec
+	cur := base
+	for j := 0; j < 6; j++ {
+		num := uint64(total - k + j)
+		spec := g.Block(cur, num, "0.14.0")
+		tx := g.G.GenTx("0.14.0")
+		rc := g.G.GenReceipt(tx)
+		from, key := g.G.Addr(3), lib.EventKey(2)
+		rc.Events = append(rc.Events, &core.Event{From: &from, Keys: []felt.Felt{key, *lib.F(0x777)}, Data: []felt.Felt{*lib.F(num)}})
+		spec.Txs, spec.Rcs, spec.NoTxs = append(spec.Txs, tx), append(spec.Rcs, rc), false
+		fork = append(fork, spec)
+		n := cur.Clone()
+		n.Apply(num, spec.Diff, spec.Classes)
+		cur = n
+	}
+	return &Scenario{Kind: "window", NewState: newState, Main: main, Rounds: []Round{{Revert: k, Fork: fork}}, Warm: true, Restart: true, ObsFrom: W - 8}
+}
+
+// buildCase builds the scenario of a case.
+func buildCase(cs caseSpec, thorough bool) *Scenario {
+	var sc *Scenario
+	switch cs.Kind {
+	case "fork":
+		sc = buildFork(cs, thorough)
+	case "directed":
+		for _, d := range directedScenarios {
+			if d.name == cs.Name {
+				sc = d.mk(cs.NewState)
+			}
+		}
+	case "enum":
+		nacts := 3
+		if thorough {
+			nacts = 4
+		}
+		sc, _ = enumScenario(cs.Case, nacts)
+	case "window":
+		sc = windowScenario(cs.NewState)
+	}
+	if sc == nil {
+		return nil
+	}
+	sc.Kind, sc.NewState, sc.Seed, sc.Case, sc.Name = cs.Kind, cs.NewState, cs.Seed, cs.Case, cs.Name
+	return sc
+}
+
+// ---------------------------------------------------------------------------------------------
+// Shrinking: edit the explicit specs and execute again; keep an edit when the same finding
+// still occurs.
+// ---------------------------------------------------------------------------------------------
+
+func cloneScenario(sc *Scenario) *Scenario {
+	c := *sc
+	c.Main = append([]*lib.BlockSpec{}, sc.Main...)
+	c.Rounds = nil
+	for _, rd := range sc.Rounds {
+		c.Rounds = append(c.Rounds, Round{Revert: rd.Revert, Fork: append([]*lib.BlockSpec{}, rd.Fork...)})
+	}
+	return &c
+}
+
+func cloneSpec(s *lib.BlockSpec) *lib.BlockSpec {
+	c := *s
+	c.Diff = lib.DeepCopy(s.Diff).(*core.StateDiff)
+	cl := map[felt.Felt]core.ClassDefinition{}
+	for k, v := range s.Classes {
+		cl[k] = v
+	}
+	c.Classes = cl
+	return &c
+}
+
+// specEdits returns simplified variants of one spec.
+func specEdits(s *lib.BlockSpec) []*lib.BlockSpec {
+	var out []*lib.BlockSpec
+	if len(s.Txs) > 0 {
+		c := cloneSpec(s)
+		c.Txs, c.Rcs, c.NoTxs = nil, nil, true
+		out = append(out, c)
+	}
+	d := s.Diff
+	if len(d.StorageDiffs) > 0 {
+		for _, a := range sortedKeys(d.StorageDiffs) {
+			c := cloneSpec(s)
+			delete(c.Diff.StorageDiffs, a)
+			out = append(out, c)
+			if len(d.StorageDiffs[a]) > 1 {
+				for _, k := range sortedKeys(d.StorageDiffs[a]) {
+					c := cloneSpec(s)
+					delete(c.Diff.StorageDiffs[a], k)
+					out = append(out, c)
+				}
+			}
+		}
+	}
+	if len(d.Nonces) > 0 {
+		c := cloneSpec(s)
+		c.Diff.Nonces = map[felt.Felt]*felt.Felt{}
+		out = append(out, c)
+	}
+	if len(d.ReplacedClasses) > 0 {
+		c := cloneSpec(s)
+		c.Diff.ReplacedClasses = map[felt.Felt]*felt.Felt{}
+		out = append(out, c)
+	}
+	if len(d.DeclaredV0Classes) > 0 || len(d.DeclaredV1Classes) > 0 || len(d.MigratedClasses) > 0 || len(s.Classes) > 0 {
+		c := cloneSpec(s)
+		c.Diff.DeclaredV0Classes = []*felt.Felt{}
+		c.Diff.DeclaredV1Classes = map[felt.Felt]*felt.Felt{}
+		c.Diff.MigratedClasses = map[felt.SierraClassHash]felt.CasmClassHash{}
+		c.Classes = map[felt.Felt]core.ClassDefinition{}
+		out = append(out, c)
+	}
+	for _, a := range sortedKeys(d.DeployedContracts) {
+		c := cloneSpec(s)
+		delete(c.Diff.DeployedContracts, a)
+		out = append(out, c)
+	}
+	return out
+}
+
+func shrink(sc *Scenario, sig string, opt lib.GenOptions, budget int) *Scenario {
+	best := cloneScenario(sc)
+	try := func(c *Scenario) bool {
+		if budget <= 0 {
+			return false
+		}
+		budget--
+		r := execScenario(c, opt, false)
+		if r.Skipped == "" && r.has(sig) {
+			best = c
+			return true
+		}
+		return false
+	}
+	for progress := true; progress && budget > 0; {
+		progress = false
+		// fewer rounds
+		if len(best.Rounds) > 1 {
+			c := cloneScenario(best)
+			c.Rounds = c.Rounds[:len(c.Rounds)-1]
+			if try(c) {
+				progress = true
+				continue
+			}
+		}
+		// shorter last fork
+		if n := len(best.Rounds); n > 0 && len(best.Rounds[n-1].Fork) > 0 {
+			c := cloneScenario(best)
+			c.Rounds[n-1].Fork = c.Rounds[n-1].Fork[:len(c.Rounds[n-1].Fork)-1]
+			if try(c) {
+				progress = true
+				continue
+			}
+		}
+		// drop the last main block together with one revert
+		if len(best.Rounds) > 0 && best.Rounds[0].Revert > 1 && len(best.Main) > 1 {
+			c := cloneScenario(best)
+			c.Main = c.Main[:len(c.Main)-1]
+			c.Rounds[0].Revert--
+			if try(c) {
+				progress = true
+				continue
+			}
+		}
+		// drop a main block below the fork point (renumbers the rest)
+		if len(best.Rounds) > 0 {
+			fp := len(best.Main) - best.Rounds[0].Revert
+			for i := 0; i < fp && !progress; i++ {
+				c := cloneScenario(best)
+				c.Main = append(append([]*lib.BlockSpec{}, c.Main[:i]...), c.Main[i+1:]...)
+				if try(c) {
+					progress = true
+				}
+			}
+			if progress {
+				continue
+			}
+		}
+		if best.Warm || best.Restart {
+			c := cloneScenario(best)
+			c.Warm, c.Restart = false, false
+			if try(c) {
+				progress = true
+				continue
+			}
+		}
+		// simplify single blocks
+		edit := func(list []*lib.BlockSpec, set func(c *Scenario, i int, s *lib.BlockSpec)) bool {
+			for i, s := range list {
+				for _, e := range specEdits(s) {
+					c := cloneScenario(best)
+					set(c, i, e)
+					if try(c) {
+						return true
+					}
+				}
+			}
+			return false
+		}
+		if edit(best.Main, func(c *Scenario, i int, s *lib.BlockSpec) { c.Main[i] = s }) {
+			progress = true
+			continue
+		}
+		for ri := range best.Rounds {
+			ri := ri
+			if edit(best.Rounds[ri].Fork, func(c *Scenario, i int, s *lib.BlockSpec) { c.Rounds[ri].Fork[i] = s }) {
+				progress = true
+				break
+			}
+		}
+	}
+	return best
+}
+
+func scenarioText(sc *Scenario) map[string]any {
+	var main []string
+	for _, s := range sc.Main {
+		main = append(main, specSummary(s))
+	}
+	var rounds []map[string]any
+	for _, rd := range sc.Rounds {
+		var fk []string
+		for _, s := range rd.Fork {
+			fk = append(fk, specSummary(s))
+		}
+		rounds = append(rounds, map[string]any{"revert": rd.Revert, "then_store": fk})
+	}
+	if len(main) > 24 {
+		main = append([]string{fmt.Sprintf("... %d earlier blocks ...", len(main)-24)}, main[len(main)-24:]...)
+	}
+	return map[string]any{"main_chain": main, "rounds": rounds, "event_queries_before_revert": sc.Warm, "restart_compared": sc.Restart}
+}
+
+// ---------------------------------------------------------------------------------------------
+// Probes: which repairs does the tree under test contain? (The model follows the code.)
+// ---------------------------------------------------------------------------------------------
+
+type probes struct {
+	zeroWriteFix          bool
+	removeImplicitClasses bool
+	legacyPurgeOnUpdate   bool
+	dropReopenedWindow    bool
+}
+
+func runProbes(opt lib.GenOptions) probes {
+	var p probes
+	// 05cf200: legacy revert of a zero write to a never-written slot succeeds
+	r := execScenario(&Scenario{NewState: false, Main: specs("0.14.0", D().Deploy(0x104, 0xc000).Set(0x104, 1, 7), D().Set(0x104, 1, 8).Set(0x104, 2, 0)),
+		Rounds: []Round{{Revert: 1}}}, opt, false)
+	p.zeroWriteFix = !r.has("revert-fails-on-stored-block")
+	// class supplied for a deployed contract is removed by the revert
+	r = execScenario(&Scenario{NewState: true, Main: []*lib.BlockSpec{D().Spec("0.13.2"), withClass(D().Deploy(0x105, 0xc005).Spec("0.13.2"), 0xc005)},
+		Rounds: []Round{{Revert: 1}}}, opt, false)
+	p.removeImplicitClasses = r.Skipped == "" && !r.has("class-of-deployed-contract-survives-revert")
+	// legacy Update purges an emptied system contract (then the record is gone from the database)
+	n := newNode("P", false)
+	line := newLine(lib.NewRNG(3), false, opt)
+	okAll := true
+	for _, s := range specs("0.14.0", D().Set(1, 7, 5), D().Set(1, 7, 0)) {
+		b, err := line.Next(s)
+		if err != nil || n.Store(b) != nil {
+			okAll = false
+			break
+		}
+	}
+	if okAll {
+		_, err := core.GetContractClassHash(n.DB, lib.F(1))
+		p.legacyPurgeOnUpdate = err != nil
+	}
+	return p
+}
+
+func b2i(b bool) int {
+	if b {
+		return 1
+	}
+	return 0
+}
+
+func (p probes) cfgLine(newState bool) string {
+	return fmt.Sprintf("cfg %d %d %d %d %d 2000", b2i(!newState), b2i(p.zeroWriteFix), b2i(p.dropReopenedWindow), b2i(p.removeImplicitClasses),
+		b2i(p.legacyPurgeOnUpdate))
+}
+
+func main() {
+	if pf := os.Getenv("C04_PROF"); pf != "" {
+		fh, _ := os.Create(pf)
+		pprof.StartCPUProfile(fh)
+		defer pprof.StopCPUProfile()
+	}
+	realMain()
+}
+
+func realMain() {
+	f := lib.ParseFlags()
+	res := lib.NewResult("a case = one scenario on one state backend: node A stores a chain, then 1-2 rounds of (revert k blocks, follow a fork); " +
+		"after every round A is compared with a fresh node B that stored only the resulting chain (decoded database + full Reader API + restarted copies) " +
+		"and with the Lean model. Kinds: random forks, directed shapes, exhaustive 3-block/one-slot enumeration, 8192-block window crossing. " +
+		"Non-trivial = at least one block was reverted")
+	opt := genOptions()
+	pr := runProbes(opt)
+	res.Note("repairs detected in the tree under test: zeroWriteFix(05cf200)=%v removeImplicitClasses=%v legacyPurgeOnUpdate=%v", pr.zeroWriteFix,
+		pr.removeImplicitClasses, pr.legacyPurgeOnUpdate)
+
+	var cases []caseSpec
+	if f.Replay != "" {
+		raw, err := os.ReadFile(f.Replay)
+		if err != nil {
+			res.Note("replay: %v", err)
+			lib.Finish(f, res)
+		}
+		var doc struct {
+			Replay struct {
+				Replay caseSpec `json:"replay"`
+			} `json:"replay"`
+		}
+		if err := json.Unmarshal(raw, &doc); err != nil || doc.Replay.Replay.Kind == "" {
+			res.Note("replay: cannot read a case from %s (%v)", f.Replay, err)
+			lib.Finish(f, res)
+		}
+		cases = []caseSpec{doc.Replay.Replay}
+	} else {
+		for _, ns := range []bool{false, true} {
+			cases = append(cases, caseSpec{Kind: "window", NewState: ns, Seed: f.Seed})
+		}
+		for _, d := range directedScenarios {
+			for _, ns := range []bool{false, true} {
+				cases = append(cases, caseSpec{Kind: "directed", NewState: ns, Seed: f.Seed, Name: d.name})
+			}
+		}
+		for i := 0; i < enumCount(f.Scale(3, 4)); i++ {
+			for _, ns := range []bool{false, true} {
+				cases = append(cases, caseSpec{Kind: "enum", NewState: ns, Seed: f.Seed, Case: i})
+			}
+		}
+		n := f.Scale(160, 3000)
+		for i := 0; i < n; i++ {
+			cases = append(cases, caseSpec{Kind: "fork", NewState: i%2 == 0, Seed: f.Seed, Case: i})
+		}
+	}
+
+	if only := os.Getenv("C04_ONLY"); only != "" { // developer aid: run one kind of case
+		var keep []caseSpec
+		for _, c := range cases {
+			if c.Kind == only {
+				keep = append(keep, c)
+			}
+		}
+		cases = keep
+	}
+	nworkers := runtime.GOMAXPROCS(0)
+	if nworkers > 12 {
+		nworkers = 12
+	}
+	drivers := make(chan *lib.Driver, nworkers)
+	for i := 0; i < nworkers; i++ {
+		d, err := lib.StartDriver(f.Driver)
+		if err != nil {
+			res.Note("driver: %v", err)
+			lib.Finish(f, res)
+		}
+		defer d.Close()
+		drivers <- d
+	}
+
+	type shrinkJob struct {
+		cs caseSpec
+		sc *Scenario
+		fd Finding
+	}
+	var mu sync.Mutex
+	firstBySig := map[string]*shrinkJob{}
+
+	var wg sync.WaitGroup
+	sem := make(chan struct{}, nworkers)
+	for _, cs := range cases {
+		wg.Add(1)
+		sem <- struct{}{}
+		go func(cs caseSpec) {
+			defer wg.Done()
+			defer func() { <-sem }()
+			sc := buildCase(cs, f.Thorough())
+			if sc == nil {
+				res.Note("unknown case %+v", cs)
+				return
+			}
+			r := execScenario(sc, opt, true)
+			backend := "legacy"
+			if cs.NewState {
+				backend = "new"
+			}
+			res.Hit("kind=" + cs.Kind)
+			res.Hit("backend=" + backend)
+			for h, n := range r.Hits {
+				res.HitN(h, n)
+			}
+			if r.Skipped != "" {
+				res.Hit("skipped")
+				res.Note("case %+v skipped: %s", cs, r.Skipped)
+				return
+			}
+			res.Compared(r.Compared)
+			res.Case(fmt.Sprintf("%s/%s/%d/%d/%s", cs.Kind, backend, cs.Seed, cs.Case, cs.Name), r.Hits["revert-ok"] > 0)
+			if r.Trace != nil {
+				p := pr
+				if cs.Kind == "window" {
+					p.dropReopenedWindow = r.Hits["reopened-window-dropped"] > 0
+				}
+				d := <-drivers
+				n, err := r.Trace.runModel(d, p.cfgLine(cs.NewState), res, cs)
+				drivers <- d
+				if err != nil {
+					res.Note("driver: %v", err)
+				}
+				res.Compared(n)
+			}
+			for _, fd := range r.Findings {
+				res.Hit("finding:" + fd.Sig)
+				mu.Lock()
+				old := firstBySig[fd.Sig]
+				// prefer the smallest scenario as the one to shrink and report
+				if old == nil || len(sc.Main)+len(sc.Rounds) < len(old.sc.Main)+len(old.sc.Rounds) {
+					firstBySig[fd.Sig] = &shrinkJob{cs, sc, fd}
+				}
+				mu.Unlock()
+			}
+			if cs.Kind == "fork" {
+				res.Sample(5, map[string]any{"case": cs, "history": r.Ops})
+			}
+		}(cs)
+	}
+	wg.Wait()
+
+	// shrink and report one violation per signature
+	sigs := make([]string, 0, len(firstBySig))
+	for s := range firstBySig {
+		sigs = append(sigs, s)
+	}
+	sort.Strings(sigs)
+	var wg2 sync.WaitGroup
+	for _, sig := range sigs {
+		job := firstBySig[sig]
+		wg2.Add(1)
+		go func(sig string, job *shrinkJob) {
+			defer wg2.Done()
+			backend := "legacy"
+			if job.cs.NewState {
+				backend = "new"
+			}
+			sc, fd := job.sc, job.fd
+			if job.cs.Kind != "window" {
+				small := shrink(job.sc, sig, opt, 120)
+				r := execScenario(small, opt, false)
+				for _, x := range r.Findings {
+					if x.Sig == sig {
+						sc, fd = small, x
+					}
+				}
+			}
+			res.Violate(lib.Violation{Sig: sig, What: "[" + backend + " backend] " + fd.What,
+				Replay: map[string]any{"replay": job.cs, "shrunk_history": scenarioText(sc), "difference": fd.Detail}})
+		}(sig, job)
+	}
+	wg2.Wait()
+	pprof.StopCPUProfile()
+	lib.Finish(f, res)
 }
